@@ -37,6 +37,8 @@ def run(ck):
         types = [PROFILES[i % 7]] if fitter == "single" else [rng.choice(PROFILES) for _ in range(rng.randint(1, 3))]
         cases.append({"mode": "keys", "fitter": fitter, "types": types, "sky": ["none", "flat", "tilted-plane"][(i + i // 3) % 3], "loss": losslib.LOSSES[i % 10],
                       "renderer": rng.choice(["pixel", "fourier"]), "suffix": ["", "_a", "", "_x1"][i % 4] if fitter == "multi" else "", "N": 8, "seed": i})
+    cases.append({"mode": "keys", "fitter": "multi", "types": ["pointsource", "doublesersic", "sersic_exp"], "sky": "flat", "loss": "gaussian_loss",
+                  "renderer": "fourier", "suffix": ["", "_a"][ck.seed % 2], "N": 8, "seed": 77})
     nfit = 1 if quick else 6
     for i in range(nfit):
         N = 32
